@@ -58,6 +58,11 @@ def check(tier, seed):
     if deep:
         for (m, s) in [(200, 1000), (210, 300), (150, 600)]:
             jobs.append(dict(name="%s_m%d_s%d" % (deep[0], m, s), src=deep[1], args=["30"], stack=s, mem=m, meta=dict(prog=deep[0], axis="both", size=(m, s))))
+    # a burst: one instruction allocates nearly the whole heap between two safe points (the 80 %% rule is only looked at at SLIDE / RET,
+    # so the collector's bookkeeping lists must hold as many entries as the heap has cells)
+    burst = "func main(n : int) -> int { var a = {[ n ]} : int; a[n - 1] = 7; a[n - 1] + a[0] }\n"
+    for (m, n) in [(2000, 1750), (2000, 1850), (3000, 2700), (5000, 4500), (5000, 4800), (1200, 1020)]:
+        jobs.append(dict(name="alloc_burst_m%d_n%d" % (m, n), src=burst, args=[str(n)], stack=200, mem=m, meta=dict(prog="alloc_burst_n%d" % n, axis="heap", size=m)))
     per = {}
     def on_result(j, r, st, det, io):
         k = io["kind"]
